@@ -80,11 +80,33 @@ type vfE11 struct {
 	B func(int) int
 }
 
+type vfIn3 struct {
+	A int
+	G int
+}
+type vfE12 struct {
+	vfIn1
+	vfIn3
+}
+type vfHasVer struct{ K int }
+
+func (vfHasVer) Ver() int { return 41 }
+
+type vfVerFn struct{ Ver func() string }
+type vfVerMid struct{ vfVerFn }
+type vfE13 struct {
+	vfHasVer
+	vfVerMid
+}
+type vfVerMap map[string]interface{}
+
+func (vfVerMap) Ver() int { return 41 }
+
 func (vfE1) ValM() int    { return 1 }
 func (*vfE1) PtrM() int   { return 2 }
 func (vfIn1) InM() string { return "in" }
 
-var vfC16Names = []string{"A", "B", "C", "D", "E", "X", "F", "priv", "Pub", "ValM", "PtrM", "InM", "Zz", "Inner", "Deep", "vfIn1", "vfMid", "a"}
+var vfC16Names = []string{"A", "B", "C", "D", "E", "X", "F", "priv", "Pub", "ValM", "PtrM", "InM", "Zz", "Inner", "Deep", "vfIn1", "vfMid", "a", "G", "K", "Ver"}
 
 func vfC16Env(k int) interface{} {
 	in1 := vfIn1{A: 11, B: "b"}
@@ -121,12 +143,18 @@ func vfC16Env(k int) interface{} {
 		return map[string]interface{}{"A": 1, "B": "s", "C": func(x int) int { return x }, "Inner": vfE4{in1, in2}}
 	case 14:
 		return vfE11{in1, func(x int) int { return x }}
+	case 16:
+		return vfE12{in1, vfIn3{A: 1, G: 2}}
+	case 17:
+		return vfE13{vfHasVer{1}, vfVerMid{vfVerFn{func() string { return "deep" }}}}
+	case 18:
+		return vfVerMap{"Ver": func() string { return "entry" }, "A": 1}
 	default:
 		return &vfE7{mid, in1}
 	}
 }
 
-const vfC16Envs = 16
+const vfC16Envs = 19
 
 // goResolves: Go's own member resolution (selector rule), through reflect on the TYPE.
 func vfGoResolvesField(env interface{}, name string) (reflect.Type, bool) {
@@ -178,7 +206,7 @@ func HarnessC16Identifier() {
 func HarnessC16Call() {
 	k := vfParamInt("env")
 	env := vfC16Env(k)
-	name := []string{"ValM", "PtrM", "InM", "C", "B", "Zz"}[vfChoice("name", 6)]
+	name := []string{"ValM", "PtrM", "InM", "C", "B", "Zz", "Ver"}[vfChoice("name", 7)]
 	src := name + "()"
 	if name == "C" || name == "B" {
 		src = name + "(1)"
@@ -187,8 +215,15 @@ func HarnessC16Call() {
 	vfReach("c16.call.compiled")
 	_, isMethod := reflect.TypeOf(env).MethodByName(name)
 	if err == nil {
-		_, rerr := Run(program, env)
+		out, rerr := Run(program, env)
 		vfAssert(rerr == nil, "c16.accepted-call-resolves-at-run-time")
+		if rerr == nil {
+			tree, _ := parser.Parse(src)
+			static, _ := checker.Check(tree, conf.New(env))
+			if static != nil && static.Kind() != reflect.Interface && out != nil {
+				vfAssert(reflect.TypeOf(out) == static, "c16.resolved-value-has-the-assumed-type")
+			}
+		}
 	} else if isMethod {
 		vfAssert(false, "c16.method-go-resolves-is-accepted")
 	}
